@@ -344,7 +344,12 @@ Section Reader.
 End Reader.
 
 (* ---------- executable instance and harness interface ---------- *)
-Definition type_from_text_run := enum_from_text type_tbl [84;89;80;69] 65535 eUnknownRdatatype.
+(* dns.rdatatype.from_text: C05's model of it (the full mnemonic table, '-' / '_' spellings, TYPEnnn) *)
+Definition type_from_text_run (v : list Z) : res Z :=
+  match RdTextM.rdtype_from_text v with
+  | Lib _ => Lib eUnknownRdatatype
+  | x => x
+  end.
 
 (* class IN: C05's text schema for the type, else GenericRdata.from_text *)
 (* types implemented under dns/rdtypes/IN only: in any other class get_rdata_class gives GenericRdata *)
